@@ -50,6 +50,32 @@ def run(ctx, rep, tier):
     rep.rule("X2", "no placement stage is re-entered from inside a stage (busy guard is not re-entrant)", min_instances=3)
     rep.rule("P2", "params.check() first in the algorithm entry points", min_instances=3)
     rep.rule("P1", "failed legalization writes nothing back", min_instances=2)
+    rep.rule("FL", "the two structural-update flags of the circuit are cleared together", min_instances=2)
+    _fl = {}
+    for f_ in prog.all_funcs(with_lambdas=False):
+        if f_.body is None:
+            continue
+        for y_ in walk(f_.body):
+            if y_.get("kind") == "BinaryOperator" and y_.get("opcode") == "=":
+                lc_ = canon(children(y_)[0])
+                if lc_[0] == "field" and str(lc_[1]).split("::")[-1] in ("hasCellSizeUpdate_", "hasNetUpdate_") and canon(children(y_)[1]) == ("lit", False):
+                    _fl.setdefault(f_.key, (f_, {}))[1].setdefault(str(lc_[1]).split("::")[-1], []).append(y_)
+    for f_, d_ in _fl.values():
+        if len(d_) == 2:
+            rep.holds("FL", list(d_.values())[0][0], f_, "%s clears hasCellSizeUpdate_ and hasNetUpdate_" % f_.short)
+        elif len(list(d_.values())[0]) < 2:
+            rep.holds("FL", list(d_.values())[0][0], f_, "%s clears %s once (the update it has just handled)" % (f_.short, list(d_)[0]))
+        else:
+            have = list(d_)[0]
+            other = "hasNetUpdate_" if have == "hasCellSizeUpdate_" else "hasCellSizeUpdate_"
+            rep.violation("FL", d_[have][0], f_, "%s clears %s (%d time(s)) and never %s" % (f_.short, have, len(d_[have]), other),
+                          "a change notified before the call stays pending: the next run with a callback refuses a circuit nobody touched",
+                          key="%s|one update flag cleared without the other" % f_.short)
+    if not _fl:
+        rep.unknown("FL", None, None, "update flags", "no function clears them (shape changed)")
+    rep.rule("CA", "the legalizer's compact cell numbering is the same when it is built and when it is written back (no throw half-way through the export)", min_instances=2)
+    from .common import check_compaction
+    check_compaction(ctx, rep, "CA", prog.func1(CQ + "Legalizer::fromIspdCircuit"), prog.func1(CQ + "Legalizer::exportPlacement"))
 
     # ---- T10 -------------------------------------------------------------
     cni = prog.func1(CQ + "Circuit::checkNotInUse")
